@@ -112,7 +112,7 @@ Print Assumptions C24_responder_half.
 (* The executable statement of the property that is evaluated on the implementation's messages on every run
    (monitor_C03: metadata = the plan's link loads over the store; blocks by C19's specification state; index;
    final status by the rule) and the wire monitor of C24's responder half (no block at an index <= skip, no block
-   twice within a request) accept EVERY scheduled execution of the model: every store, any number of requests
+   twice within a request, none named by its do-not-send-cids list) accept EVERY scheduled execution of the model: every store, any number of requests
    with distinct ids, every plan and extension combination for each of them, and every schedule — i.e. every
    interleaving of the requests' link loads with one another, requests starting at any point — in which a
    request is started at most once and only known requests are started.  [sim] is the model's execution of a
